@@ -750,10 +750,22 @@ def r_crossed(c):
          "pta/fixtures/crossed", nontrivial=False)
 
 
+def r_no_hash_keys(c):
+    """(shared rule, pta/rules/common.py) no table of the transformation modules is
+    keyed by hash(object)"""
+    from pta.rules.common import check_no_hash_keyed_tables
+    n = check_no_hash_keyed_tables(c, "R05-KEYS", NOMUT_MODULES)
+    c.ok("R05-KEYS", "transformation modules", f"{n} functions: no table keyed by hash()",
+         "pytato/", nontrivial=False)
+    if n < 200:
+        raise AnalysisError(f"only {n} functions scanned for hash-keyed tables (floor 200)")
+
+
 SPEC = Spec(
     prop="C05",
     rules=[r_nomut, r_rebuild, r_rebuild_guard, r_keys, r_tagonly, r_ident_keyed,
-           r_dedup_key, r_position, r_state, r_crossed],
+           r_dedup_key, r_position, r_state, r_crossed,
+           r_no_hash_keys],
     floors={"R05-NOMUT": 300, "R05-REBUILD": 60, "R05-IDENTITY": 31,
             "R05-REBUILD-GUARD": 5, "R05-KEYS": 10, "R05-TAGONLY": 40,
             "R05-IDENT-KEYED": 2, "R05-DEDUP-KEY": 7, "R05-POSITION": 3, "R05-STATE": 8},
@@ -782,7 +794,8 @@ SPEC = Spec(
         "modules keep no state that outlives a call and hand out no module-level "
         "container (canary fixture). R05-CROSSED: in no call of the package are two "
         "keywords computed from each other's field (K(a=<from .b>, b=<from .a>), "
-        "following locals; canary fixture)."),
+        "following locals; canary fixture). R05-KEYS also: no table is keyed by "
+        "hash(object) (distinct objects can share a hash)."),
     not_decided=(
         "Value preservation for all inputs; idempotence of deduplicate / dead-code "
         "elimination / MPMS; positional correctness inside a rebuilt tuple "
